@@ -111,6 +111,8 @@ def gen_plan(seed, tier="quick"):
         "chunk_ref": chunk_ref, "chunk": chunk, "n_jobs": n_jobs,
         "p_switch": r.choice([0.0, 0.0, 0.02, 0.1, 0.5, 1.0]), "victim": r.choice([None, None, 0, n_jobs - 1]),
         "order": r.choice([None, None, "reverse", "shuffle"]), "sched_seed": r.randrange(1 << 30), "trace": None,
+        # an earlier extraction in the same process on another probe geometry with the same channel count
+        "prelude": r.choice([None, None] + [f for f in ("NP1", "NP21", "NP24") if f != fixture]),
     }
 
 
@@ -212,6 +214,8 @@ def _run(plan, base):
             # no valid spike at all: nothing to extract, not a documented use
             return {"violation": None, "stats": stats, "digest": digest(["novalid"]), "plan": dict(plan), "sample": None}
         outs = {}
+        if plan.get("prelude"):
+            _prelude(plan, base, probe, stats, sigbase)
         for tag, chunk, n_jobs, schedule in (("ref", plan["chunk_ref"], 1, None),
                                              ("sim", plan["chunk"], plan["n_jobs"], {"seed": plan["sched_seed"], "p_switch": plan["p_switch"],
                                                                                    "victim": plan["victim"], "order": plan["order"], "trace": plan.get("trace")})):
@@ -241,6 +245,34 @@ def _run(plan, base):
     return {"violation": viol, "stats": stats, "digest": digest(log), "plan": dict(plan),
             "sample": {"plan": {k: (v if k != "spikes" else v[:12]) for k, v in plan.items() if k != "trace"},
                        "n_spikes": len(plan["spikes"]), "schedule_head": (log[-1][4][:10] if log else None)}}
+
+
+def _prelude(plan, base, probe, stats, sigbase):
+    """History: another recording, other geometry, same channel count, extracted first in the same
+    process.  Its own files are checked too."""
+    nap, ns = plan["nap"], 4000
+    O = world.make_data(plan["data_seed"] ^ 0x1234, ns, nap, amp=300)
+    binf = world.write_recording(base / "rec_prelude", STEM, plan["prelude"], O)
+    sr = spikeglx.Reader(binf)
+    V = sr[:, :-sr.nsync]
+    h = sr.geometry
+    neigh = _neighbours(np.asarray(h["x"], dtype=float), np.asarray(h["y"], dtype=float))
+    sr.close()
+    r = rng_of(plan["seed"] ^ 0x99)
+    sp = sorted((r.randrange(50, ns - 100), 1 + i % 2, r.choice([0, nap - 1, r.randrange(nap)])) for i in range(12))
+    sp = sorted(set((t, u, c) for t, u, c in sp))
+    sp = [s_ for i, s_ in enumerate(sp) if i == 0 or s_[0] != sp[i - 1][0]]
+    p2 = dict(plan, spikes=[list(x) for x in sp], ns=ns, max_wf=8, fixture=plan["prelude"])
+    od = base / "out_prelude"
+    od.mkdir()
+    res = _extract(p2, binf, od, 1000, 1, None, base / "scratch_prelude")
+    if res["err"]:
+        e, tb = res["err"]
+        raise Violation("C13.W1", f"raises:{type(e).__name__}", f"prelude extract_wfs_cbin raised {type(e).__name__}: {e}")
+    spa = np.array(p2["spikes"], dtype=np.int64).reshape(-1, 3)
+    valid = (spa[:, 0] > TROUGH) & (spa[:, 0] < ns - (LENGTH - TROUGH))
+    _check_files(p2, "prelude", _load(od), V, neigh, spa, valid, ns, nap, od, res, 1000, 1, probe, stats, sigbase)
+    probe("earlier_extraction_other_geometry_same_process")
 
 
 def _load(od):
@@ -359,7 +391,7 @@ def _check_files(plan, tag, out, V, neigh, sp, valid, ns, nap, od, res, chunk, n
 
 
 def shrink_candidates(plan):
-    for key, val in (("form", "bin"), ("order", None), ("victim", None), ("p_switch", 0.0)):
+    for key, val in (("form", "bin"), ("order", None), ("victim", None), ("p_switch", 0.0), ("prelude", None)):
         if plan.get(key) != val:
             c = dict(plan)
             c[key] = val
